@@ -631,6 +631,8 @@ struct SvrCfg {
     eps: f64,
     style: &'static str,
     dup: bool,
+    /// cap on the SMO steps of one fit (SVR_CAP; the long-fit family allows far more)
+    step_cap: u64,
 }
 
 impl SvrCfg {
@@ -715,6 +717,7 @@ fn gen_svr_cfg(r: &mut Rng, kind: usize, force_dup: bool) -> SvrCfg {
         eps,
         style,
         dup,
+        step_cap: SVR_CAP,
     }
 }
 
@@ -743,8 +746,8 @@ fn svr_fit_check<K: K64>(kern: K, c: &mut Case, cfg: &SvrCfg) {
     let kmax = cfg.x.rows().iter().map(|x| cfg.k.eval(x, x).0.abs()).fold(0.0f64, f64::max);
     let hardness = cfg.c * kmax / cfg.tol;
     let wanted = (SVR_HEADROOM * hardness).max(SVR_MIN_BUDGET as f64);
-    let decidable = psd && wanted <= SVR_CAP as f64;
-    let budget = if !psd { NOT_PSD_SVR_BUDGET } else if decidable { wanted as u64 } else { SVR_CAP };
+    let decidable = psd && wanted <= cfg.step_cap as f64;
+    let budget = if !psd { NOT_PSD_SVR_BUDGET } else if decidable { wanted as u64 } else { cfg.step_cap };
     c.bucket_if(psd && !decidable, "svr:termination-undecidable-zone(200·C·maxK/tol > 5e6)");
     set_step_budget(budget);
     let r = if decidable {
@@ -978,6 +981,24 @@ fn svr(c: &mut Case) {
     with_kernel!(&cfg.k, svr_fit_check(c, &cfg));
 }
 
+/// Fits that need tens of millions of SMO steps (minutes in a debug build, ~10 s here): a cubic polynomial kernel on
+/// 48..66 rows x 5 features in [-2, 2], C = 100, tol = 1e-4, eps = 0 — slowly converging but perfectly ordinary
+/// in-scope problems. They run under a cap of 3e8 steps; a fit that stops has to satisfy the optimality conditions
+/// like any other (an internal iteration limit that silently returns the current iterate shows here).
+fn svr_long(c: &mut Case) {
+    // the cubic feature space of 5 features has 56 dimensions: around n = 56 rows the dual problem is at its hardest
+    let n = c.rng.us(48, 66);
+    let p = 5;
+    let rows: Vec<Vec<f64>> = (0..n).map(|_| (0..p).map(|_| c.rng.uni(-2.0, 2.0)).collect()).collect();
+    let y: Vec<f64> = rows.iter().map(|r| r.iter().sum::<f64>() + 0.5 * c.rng.uni(-1.0, 1.0)).collect();
+    let fresh: Vec<Vec<f64>> = (0..3).map(|_| (0..p).map(|_| c.rng.uni(-2.0, 2.0)).collect()).collect();
+    let cfg = SvrCfg { x: Mat::from_rows(&rows), y, fresh: Mat::from_rows(&fresh), k: KSpec::Poly { d: 3.0, g: 1.0, c0: 1.0 }, c: 100.0, tol: 1e-4, eps: 0.0, style: "long-fit", dup: false, step_cap: 300_000_000 };
+    c.describe(json!({"what": "SVR fit needing tens of millions of SMO steps: feasibility, expansion, KKT", "config": cfg.json()}));
+    svr_buckets(c, &cfg);
+    c.bucket("svr:long-fit(cap 3e8 steps)");
+    with_kernel!(&cfg.k, svr_fit_check(c, &cfg));
+}
+
 /// linear / polynomial SVR on data with forced (near-)duplicate rows and parameters in the zone where the
 /// step budget is assertable (C <= 10, tol >= 1e-3): termination must not depend on the sign of the
 /// rounding-noise curvature of a near-duplicate pair
@@ -1165,6 +1186,7 @@ fn main() {
             Family::new("svc_enum_n5_e2", 4000, f5 * f5 * f5, svc_enum_n5_e2).exhaustive(false, true),
             Family::new("svc_enum_n6_e1", 4000, f6 * f6, svc_enum_n6_e1).exhaustive(false, true),
             Family::new("svr", 3000, 150000, svr),
+            Family::new("svr_long", 3, 12, svr_long),
             Family::new("svr_near_dup", 1500, 40000, svr_near_dup),
             Family::new("svr_not_psd", 400, 10000, svr_not_psd),
             Family::new("kernels", 3000, 80000, kernels),
